@@ -210,7 +210,9 @@ def run_program(world, prog):
                     res = regs[op['x']] ** op['n']
                 elif o == 'Quantize':
                     rm = None if op['rm'] == 'NONE' else ROUNDING[op['rm']]
-                    if op.get('kw', True):
+                    if rm is None and op.get('kw', True):
+                        res = regs[op['x']].quantize(regs[op['y']])    # argument omitted
+                    elif op.get('kw', True):
                         res = regs[op['x']].quantize(regs[op['y']], rounding=rm)
                     else:
                         res = regs[op['x']].quantize(regs[op['y']], rm)
